@@ -622,6 +622,20 @@ impl NHistory {
                     self.violate("C07", "NetcodeClient::new panicked".to_string());
                 }
             }
+            101 => {
+                // a token that generate + write produced reads back (C16: write then read is the identity on valid tokens)
+                let obs = self.emit(op);
+                if let Some([Tree::N(0), Tree::B(bytes)]) = obs.as_l() {
+                    let bytes = bytes.clone();
+                    let read = self.emit(&l(vec![n(117u8), b(&bytes)]));
+                    if read.as_l().and_then(|o| o.first()).and_then(|t| t.as_u64()) != Some(0) && !self.res.panicked {
+                        self.violate("C16", format!("a connect token written by ConnectToken::write does not read back: {}", read.to_text().chars().take(80).collect::<String>()));
+                    }
+                }
+                if self.res.panicked {
+                    self.violate("C07", "generating, writing or reading back a connect token panicked".to_string());
+                }
+            }
             117 | 118 => {
                 let obs = self.emit(op);
                 // C16: a token that reads successfully re-serialises to bytes that read to the same value
